@@ -636,6 +636,19 @@ func validate(caller string, start, limit uint64, blocks []eth.Block) error {
 	return nil
 }
 
+// setHash records the hash of the block that a receipt, log or trace
+// names. When the block's hash is already known, from its header or
+// from an earlier item, the item must name the same hash: data of two
+// different blocks with one number is never merged.
+func setHash(b *eth.Block, h []byte) error {
+	if len(b.Header.Hash) > 0 && !bytes.Equal(b.Header.Hash, h) {
+		const tag = "block %d: hash mismatch. have: %.4x got: %.4x"
+		return fmt.Errorf(tag, uint64(b.Header.Number), []byte(b.Header.Hash), h)
+	}
+	b.Header.Hash.Write(h)
+	return nil
+}
+
 type headerResp struct {
 	Error       `json:"error"`
 	*eth.Header `json:"result"`
@@ -750,7 +763,12 @@ func (c *Client) receipts(ctx context.Context, url string, bm blockmap, start, l
 		// other callers: attach under the block lock (as logs does)
 		// and publish each log slice only once it is complete.
 		b.Lock()
-		b.Header.Hash.Write(resps[i].Result[0].BlockHash)
+		for j := range resps[i].Result {
+			if err := setHash(b, resps[i].Result[j].BlockHash); err != nil {
+				b.Unlock()
+				return fmt.Errorf("eth_getBlockReceipts: %w", err)
+			}
+		}
 		for j := range resps[i].Result {
 			tx := b.Tx(uint64(resps[i].Result[j].TxIdx))
 			tx.PrecompHash.Write(resps[i].Result[j].TxHash)
@@ -870,7 +888,12 @@ func (c *Client) logs(ctx context.Context, url string, filter *glf.Filter, bm bl
 			return fmt.Errorf("block not found")
 		}
 		b.Lock()
-		b.Header.Hash.Write(logs[0].BlockHash)
+		for i := range logs {
+			if err := setHash(b, logs[i].BlockHash); err != nil {
+				b.Unlock()
+				return fmt.Errorf("eth_getLogs: %w", err)
+			}
+		}
 		tx := b.Tx(k.b)
 		tx.PrecompHash.Write(logs[0].TxHash)
 		for i := range logs {
@@ -932,7 +955,12 @@ func (c *Client) traces(ctx context.Context, url string, bm blockmap, start, lim
 		// The block may come from the cache and be shared with
 		// other callers: attach under the block lock (as logs does).
 		block.Lock()
-		block.Header.Hash.Write(res.Result[0].BlockHash)
+		for j := range res.Result {
+			if err := setHash(block, res.Result[j].BlockHash); err != nil {
+				block.Unlock()
+				return fmt.Errorf("trace_block: %w", err)
+			}
+		}
 
 		var tracesByTx = map[key][]traceBlockResult{}
 		for i := range res.Result {
